@@ -95,6 +95,13 @@ CHECKS = {
              'records, and the uncoloured run emits no escape sequence of its own; every coloured fragment printed is fed '
              'back coloured and stripped to twin sessions, which must behave identically.',
         ref='3/C17', engine='BFS'),
+    'C07': dict(
+        technique='exhaustive enumeration of every shipped interface x message x argument position (API and output '
+                  'lines) and of all load orders of synthetic multi-version descriptions, against an independent XML reader',
+        text='Exhaustive in both tiers: every argument of every message of all ~260 shipped interfaces is looked up '
+             'through the API and displayed through the real pipeline; every enum-typed argument is tried with all entries, '
+             'unions, 0, -1, max+1, 2^31; synthetic versions 1..3/1..4 are loaded in every permutation.',
+        ref='3/C07', engine='PROD'),
 }
 
 NOT_YET = 'check under construction in this round; will be claimed when mc/props/%s.py lands'
